@@ -64,6 +64,8 @@ BOOSTCFG = {
     "docboost": {"fb": 1.0, "doc": [None, 2.0, 1.5, None, 3.0], "sdoc": [None]},
     # 1.1 and 1.3 are not representable in float32: the stored weight is the
     # rounded one; 0.5 gives weights below 1
+    # weights of at most 1.0, some below it, side by side in one posting block
+    "lowboost": {"fb": 1.0, "doc": [None, 0.5, None, 0.25, 1.0], "sdoc": [None]},
     "mixed": {"fb": 1.5, "doc": [2.0, None, 1.1, None, 0.5, 1.0],
               "sdoc": [None, 3.0, None, None, 1.3]},
 }
@@ -1349,7 +1351,7 @@ def run(ctx):
     # ---- leaf law -----------------------------------------------------------
     D = 5
     lls = leaf_layouts(D)
-    for cfg in ("plain", "fieldboost", "docboost", "mixed"):
+    for cfg in ("plain", "fieldboost", "docboost", "lowboost", "mixed"):
         for lay in lls:
             tasks.append(("leaf", D, seed, cfg, lay, WEIGHTINGS))
     if not quick:
